@@ -127,7 +127,7 @@ def run_unit(name, tier, seed):
         raise Undecided('unit %s: verus produced no result (rc %s): %s' % (name, r['rc'], r['stderr'][-400:]))
     vr = res.get('verification-results', {})
     errors = [d for d in r['diags'] if d.get('level') == 'error' and d.get('spans')]
-    gm = GenMap(g['text'], g['inserted'], getattr(u, 'DEFAULT_TAGS', []), name)
+    gm = GenMap(g['text'], g['inserted'], getattr(u, 'DEFAULT_TAGS', []), name, getattr(u, 'TAG_RULES', ()))
     fe = [d for d in r['diags'] if d.get('level') == 'error']
     if vr.get('encountered-vir-error') or (vr.get('encountered-error') and vr.get('errors', 0) == 0
                                            and vr.get('verified', 0) == 0):
